@@ -1409,8 +1409,8 @@ def explore(rec):
     rec.enum("getter-table", getter_enumeration())
     rec.enum("sequence-values-on-new-lines", list_newline_enumeration(toml_ok))
     rec.enum("color-spellings", color_enumeration())
-    rec.hyp("options", case_st(toml_ok=toml_ok, focus="options"), 2400 if quick else 60000)
-    rec.hyp("userdata", case_st(toml_ok=toml_ok, focus="userdata"), 800 if quick else 20000)
+    rec.hyp("options", case_st(toml_ok=toml_ok, focus="options"), 7000 if quick else 100000)
+    rec.hyp("userdata", case_st(toml_ok=toml_ok, focus="userdata"), 3000 if quick else 40000)
 
 
 def required_labels(tier):
